@@ -1377,6 +1377,14 @@ ares_status_t ares_send_query(ares_server_t *requested_server,
   query->conn = conn;
   conn->total_queries++;
 
+  /* A query written on a connection that was already open causes no socket
+   * state change, so nothing wakes a sleeping event thread.  If this query
+   * now carries the earliest deadline the thread's current wait is too long
+   * (possibly unlimited): have it recalculate. */
+  if (ares_slist_first_val(channel->queries_by_timeout) == query) {
+    ares_event_thread_wake_timeout(channel);
+  }
+
   /* We just successfully enqueud a query, see if we should probe downed
    * servers. */
   if (probe_downed_server) {
